@@ -86,8 +86,8 @@ def replay(prop, path):
 
 # =====================================================================================================  C13
 
-LEXER_MC = {"quick": ["gen3", "bnd3", "str5", "num4", "dir4", "asm4", "word4"],
-            "thorough": ["gen3", "bnd3", "gen4", "str5", "str7", "num5", "dir6", "asm6", "word5"]}
+LEXER_MC = {"quick": ["gen3", "bnd3", "ml7", "str5", "num4", "dir4", "asm4", "word4"],
+            "thorough": ["gen3", "bnd3", "ml7", "gen4", "str5", "str7", "num5", "dir6", "asm6", "word5"]}
 
 
 def lexer_mc_and_replay(c, tier, limit_replay=None):
@@ -203,7 +203,7 @@ def c04(tier):
         tasks += walk_tasks(Q(tier, 20000, 300000), "six")
         tasks += char_tasks(Q(tier, 60000, 1000000), "six")
         tasks += seed_tasks("wide" if tier == "thorough" else "six")
-        tasks += split_tasks("scaled", {"max_k": Q(tier, 30, 60)}, Q(tier, 30, 60) * 8, [], "six", chunks=16)
+        tasks += split_tasks("scaled", {"max_k": Q(tier, 30, 60)}, Q(tier, 30, 60) * 10, [], "six", chunks=16)
         c.explore(tasks, f"soup_{label}", props, vh=vh, timeout_ms=Q(tier, 2000, 10000), sample_cap=Q(tier, 60, 300))
     c.exhaustive = True
     return c.finish(
@@ -275,9 +275,10 @@ def c08(tier):
     build(("release",))
     c = Check("C08", tier, "model_checking")
     recon_mc_and_replay(c, tier, False)
-    c.explore(basic_corpus(tier), "corpus", ["C08"], sample_cap=Q(tier, 250, 1500))
+    tasks = basic_corpus(tier) + program_tasks(tier, "six", [REGIONS2, REGIONS3, COMMENTS], cfg_mode="rotate", sample_every=Q(tier, 499, 4999))
+    c.explore(tasks, "corpus", ["C08"], sample_cap=Q(tier, 250, 1500))
     return c.finish(
-        rule="as C01; the whitespace predicates of Props.tla (WhitespaceViolations) are evaluated on the final token table of every call; the end-of-file clause on well-formed inputs (seeds) only")
+        rule="as C01, plus generated programs with one or two verbatim regions (also inside one statement) and blank-line runs in the middle of statements; the whitespace predicates of Props.tla (WhitespaceViolations) are evaluated on the final token table of every call; the end-of-file clause on well-formed inputs (seeds) only")
 
 
 def c14(tier):
@@ -340,6 +341,22 @@ def c09(tier):
     t2, _ = soup_tasks("full", 2, "six", sample_every=Q(tier, 1999, 499))
     tasks += t2 + splice_tasks(Q(tier, 2000, 30000), "six", sample_every=Q(tier, 199, 997)) + walk_tasks(Q(tier, 5000, 100000), "six", sample_every=997)
     c.explore(tasks, "le", ["C09"], sample_cap=Q(tier, 150, 800))
+    # through the command line: a file that differs from the result only in its terminators is still rewritten
+    import cli
+    build(("cli",))
+    texts = seed_texts(Q(tier, 30, 300))
+    scen = [{"text": t, "file_eol": fe, "option": op} for i, t in enumerate(texts) for (fe, op) in (("lf", "crlf"), ("crlf", "lf"), ("lf", "lf"))[i % 2:][:2]]
+    res = cli.run_scenarios(cli.run_eol_scenario, scen)
+    ran = 0
+    for sc, (problems, skipped) in zip(scen, res):
+        if skipped:
+            continue
+        ran += 1
+        for p in problems:
+            c.add_violation({"prop": "C09", "clause": p["clause"], "detail": p["detail"], "case": {"label": f"cli:{sc['file_eol']}->{sc['option']}", "text": sc["text"]}})
+    c.evaluations += ran
+    c.nontrivial += ran
+    c.extra["cli_scenarios"] = ran
     return c.finish(
         rule="each input is formatted under lf and crlf (relation lecfg: results equal up to the terminator) and, when it has no CR and no verbatim line-spanning token, as LF and as CRLF text (relation lein: results identical); "
              "every emitted break (between tokens, inside re-indented strings) must be the configured one")
@@ -375,7 +392,7 @@ def c11(tier):
     build(("release",))
     c = Check("C11", tier, "exploration")
     tasks = seed_tasks(Q(tier, "default", "two"), sample_every=Q(tier, 211, 499))
-    tasks += program_tasks(tier, Q(tier, "default", "two"), Q(tier, [PLAIN], [PLAIN, COMMENTS]), sample_every=Q(tier, 499, 4999))
+    tasks += program_tasks(tier, Q(tier, "default", "two"), [PLAIN, COMMENTS], sample_every=Q(tier, 499, 4999))
     c.explore(tasks, "width", ["C11"], sample_cap=Q(tier, 12, 100))
     return c.finish(
         rule="seeds and generated programs formatted at widths {10,20,40,80,120,200} plus the critical widths around the line lengths of their own output; every pair W1 < W2 is a `width` relation of Session.tla (three clauses)")
@@ -434,7 +451,8 @@ CRLFTABS = {"mode": 4, "blank_lines": True}
 CRONLY = {"mode": 5, "comments": True, "cr_comments": True}
 CRCOMMENTS = {"mode": 2, "comments": True, "cr_comments": True, "tight": True}
 REGIONS = {"mode": 1, "regions": True, "comments": True}
-REGIONS2 = {"mode": 2, "regions": True}
+REGIONS2 = {"mode": 2, "regions": True, "regions2": True}
+REGIONS3 = {"mode": 1, "regions": True, "regions2": True, "comments": True}
 
 
 def program_tasks(tier, cfgs, variants, alts=(), chunks=48, **kw):
@@ -495,18 +513,20 @@ def c06(tier):
 def c07(tier):
     build(("release",))
     c = Check("C07", tier, "model_checking")
-    tasks = program_tasks(tier, Q(tier, "six", "wide"), [REGIONS, REGIONS2, REGIONS, REGIONS2] if tier == "quick" else [REGIONS, REGIONS2] * 8, cfg_mode="rotate", sample_every=Q(tier, 299, 4999))
+    tasks = program_tasks(tier, Q(tier, "six", "wide"), [REGIONS, REGIONS2, REGIONS3, REGIONS2] if tier == "quick" else [REGIONS, REGIONS2, REGIONS3, REGIONS2] * 4, cfg_mode="rotate", sample_every=Q(tier, 299, 4999))
+    na = Q(tier, 3000, 60000)
+    tasks += split_tasks("asm", {"count": na, "seed": SEED}, na, [], "six", chunks=16, cfg_mode="rotate", sample_every=Q(tier, 101, 1999))
     t2, _ = soup_tasks("full", 2, "six", sample_every=Q(tier, 1999, 499))
     tasks += t2 + walk_tasks(Q(tier, 20000, 300000), "six", sample_every=997)
     c.explore(tasks, "regions", ["C07", "C08"], sample_cap=Q(tier, 80, 400))
     return c.finish(
-        rule="verbatim regions inserted between any two tokens of generated programs (12 off / 5 on spellings incl. near-misses, regions reaching the end of file), toggle comments in token soup and random walks; "
+        rule="verbatim regions inserted between any two tokens of generated programs (10 off / 6 on spellings incl. multi-line comment toggles with CR / LF / tab separators and near-misses; one or two regions per program, also inside one statement; regions that run to the end of a file without a final line break), toggle comments in token soup and random walks, and routines with asm bodies (22 instruction-line shapes incl. labels, `;` separators, comments, inline conditional directives, asm string literals; LF and CRLF); "
              "the byte string of every region computed by the specification's recogniser (Toggle.tla mirror) from the scanned input must occur in the output, in order, and the set of tokens the formatter treats as verbatim must be exactly the regions plus asm instruction lines")
 
 
 def mlstring_mc_and_replay(c, tier):
     """MC of the literal machine (MC_MLString) and replay of every enumerated literal through the real formatter."""
-    runs = Q(tier, ["MC_MLString.cfg", "MC_MLString_q5.cfg"], ["MC_MLString_7.cfg", "MC_MLString_q5.cfg"])
+    runs = Q(tier, ["MC_MLString.cfg", "MC_MLString_q5.cfg", "MC_MLString_cr.cfg", "MC_MLString_crlf.cfg"], ["MC_MLString_7.cfg", "MC_MLString_q5.cfg", "MC_MLString_cr.cfg", "MC_MLString_crlf.cfg"])
     c.mc("MC_MLString", "MC_MLString_bug.cfg", expect_violation=True, workers=4, timeout=900)
     for cfgname in runs:
         r = c.mc("MC_MLString", cfgname, workers=8, timeout=3000)
@@ -572,6 +592,7 @@ def c12(tier):
             for (f, le, t, tw, w) in [(True, "lf", False, 2, 120), (True, "crlf", False, 4, 40), (False, "lf", False, 2, 120), (True, "lf", True, 2, 30), (False, "crlf", True, 2, 60)]]
     tasks = program_tasks(tier, cfgs, [PLAIN, MIXED, CRLFTABS], cfg_mode="rotate", sample_every=Q(tier, 499, 4999))
     tasks += seed_tasks(cfgs, sample_every=Q(tier, 97, 997))
+    tasks += split_tasks("scaled", {"max_k": Q(tier, 40, 80)}, Q(tier, 40, 80) * 10, [], cfgs, chunks=16, sample_every=Q(tier, 97, 499))
     c.explore(tasks, "mlstrings", ["C12"], sample_cap=Q(tier, 80, 400))
     return c.finish(
         rule="multi-line literals in generated programs (3 and 5 quotes, several bodies and indentations, every expression position of the grammar) and in the seeds, under 5 configurations; per literal: value equal and re-indented like the opening quotes' line when it obeys the indentation rule and the option is on, byte-identical otherwise")
